@@ -101,7 +101,17 @@ struct Inner {
     ranges: Vec<(usize, usize)>,
     record_atoms: bool,
     yield_after: bool,
+    yield_after_loads: bool,
     site_filter: Option<SiteFilter>,
+}
+
+/// Process-wide switch read by `run`: additionally yield after every LOAD of a registered location, so that the
+/// plain accesses that follow a load (e.g. the payload copy of a sequence lock after its counter load) are
+/// separated from it by a scheduling point.  (A switch instead of a `RunConfig` field: the struct is built with
+/// all fields listed by several drivers.)
+static YIELD_AFTER_LOADS: std::sync::atomic::AtomicBool = std::sync::atomic::AtomicBool::new(false);
+pub fn set_yield_after_loads(on: bool) {
+    YIELD_AFTER_LOADS.store(on, std::sync::atomic::Ordering::SeqCst);
 }
 
 /// decides for an atomic access whether it is a yield point (instead of the address ranges)
@@ -202,7 +212,9 @@ fn pre_hook(s: &Site) {
 fn post_hook(s: &Site, rd: u64, wr: u64, ok: bool) {
     if let Some((tid, inner)) = ctx() {
         if !inner.record_atoms {
-            if inner.yield_after && s.kind.is_write() && ok && inner.site_info(s).is_some() {
+            if ((inner.yield_after && s.kind.is_write() && ok) || (inner.yield_after_loads && s.kind == verif_hook::Kind::Load))
+                && inner.site_info(s).is_some()
+            {
                 inner.do_yield(tid, Pending::After);
             }
             return;
@@ -218,7 +230,7 @@ fn post_hook(s: &Site, rd: u64, wr: u64, ok: bool) {
                     ok,
                 });
             }
-            if inner.yield_after && s.kind.is_write() && ok {
+            if (inner.yield_after && s.kind.is_write() && ok) || (inner.yield_after_loads && s.kind == verif_hook::Kind::Load) {
                 inner.do_yield(tid, Pending::After);
             }
         }
@@ -327,6 +339,7 @@ pub fn run(cfg: RunConfig, bodies: Vec<Body>, strat: &mut dyn Strategy) -> RunRe
         ranges: cfg.ranges.clone(),
         record_atoms: cfg.record_atoms,
         yield_after: cfg.yield_after,
+        yield_after_loads: YIELD_AFTER_LOADS.load(std::sync::atomic::Ordering::SeqCst),
         site_filter: cfg.site_filter.clone(),
     });
 
